@@ -53,6 +53,7 @@ def run(idx: ProgramIndex, rep: Report, tier: str):
     sizes_from_the_right(idx, rep)
     event_ranks_agree(idx, rep)
     prior_event_dims(idx, rep)
+    prior_matrices(idx, rep)
 
 
 def _families(idx: ProgramIndex) -> List[ClassInfo]:
@@ -944,3 +945,45 @@ def prior_event_dims(idx: ProgramIndex, rep: Report):
                     "`%s` reduces the last dimension of the value, and the constructor turns scalar parameters into that event dimension (`%s`): for a parameter of shape batch_shape (outputscale, ConstantMean.constant) the last dimension is the batch, log_prob returns one number for the whole batch and every element of the batched MLL is charged the prior of all elements"
                     % (" ".join(src(reds[0]).split())[:50], " ".join(src(promoted[0]).split())[:50]), {})
     rep.floor("C08-14", "priors that reduce a dimension of their argument", n, 1)
+
+
+# ---- C08-16 --------------------------------------------------------------------------------------------------------
+def prior_matrices(idx: ProgramIndex, rep: Report):
+    """Matrix-valued priors (LKJ covariance priors on task covariances) are evaluated on a matrix the module assembles from its
+    parameters in a helper its prior closure calls (`lambda m: m._eval_covar_matrix()`).  The assembly is judged in the event-rank
+    domain: a parameter registered as *batch x 1 (the global noise) meets the t x t identity only after one unsqueeze(-1) - otherwise
+    its batch axis lines up with the rows of the identity (batch b == t: every batch member gets diag(noise_0..noise_t-1); b != t: raises)."""
+    from ..domains.eventrank import RankEval
+    rep.rule("C08-16", "the matrix a prior closure assembles from the module's parameters combines them in matching event ranks (a *batch x 1 noise meets an identity matrix only after unsqueeze(-1))")
+    n = 0
+    for cls in sorted(idx.package_classes(), key=lambda c: (c.module.name, c.qualname)):
+        helpers = set()
+        for m in cls.methods.values():
+            for c in calls_in(m.node):
+                if isinstance(c.func, ast.Attribute) and c.func.attr == "register_prior":
+                    for lam in [a for a in list(c.args) + [k.value for k in c.keywords] if isinstance(a, ast.Lambda)]:
+                        for cc in ast.walk(lam.body):
+                            if isinstance(cc, ast.Call) and isinstance(cc.func, ast.Attribute) and isinstance(cc.func.value, ast.Name) and lam.args.args and cc.func.value.id == lam.args.args[0].arg:
+                                helpers.add(cc.func.attr)
+        for h in sorted(helpers):
+            fi = cls.lookup(h)
+            if fi is None or fi.kind != "method" or not fi.module.name.startswith(idx.package):
+                continue
+            ranks = _registered_event_ranks(idx, cls)
+            n += 1
+            ev = RankEval(fi.params[0], lambda a: ranks.get(a), None)
+            for st in body_without_docstring(fi.node):
+                if isinstance(st, ast.Assign) and len(st.targets) == 1 and isinstance(st.targets[0], ast.Name):
+                    ev.env[st.targets[0].id] = ev.ev(st.value)
+                elif isinstance(st, ast.Return) and st.value is not None:
+                    ev.ev(st.value)
+                elif isinstance(st, ast.If):
+                    for sub in st.body + st.orelse:
+                        if isinstance(sub, ast.Assign) and len(sub.targets) == 1 and isinstance(sub.targets[0], ast.Name):
+                            ev.env[sub.targets[0].id] = ev.ev(sub.value)
+                        elif isinstance(sub, ast.Return) and sub.value is not None:
+                            ev.ev(sub.value)
+            probs = sorted(set(ev.problems))
+            rep.add("C08-16", "%s:%s.%s[matrix for the prior]" % (cls.module.name, cls.qualname, h), fi.where, not probs,
+                    "%d combination(s) of parameters with matrices, event ranks agree" % ev.checked if not probs else "; ".join("line %d: %s" % (l_, t_) for l_, t_ in probs[:2]), {"checked": ev.checked})
+    rep.floor("C08-16", "matrix assemblies called by prior closures", n, 2)
